@@ -48,6 +48,13 @@ Definition chk_chat (st : style) (tok : N) (mllama projcount : bool) (numctx : Z
             && eqb_strs (map content (after_call mllama msgs n)) after
   end.
 
+(** the same with a tokenizer that fails on its [k]-th call (k > 0): outcome 3 = that error is returned *)
+Definition chk_chat_fail (k : nat) (st : style) (tok : N) (mllama projcount : bool) (numctx : Z) (msgs : list msg)
+           (outcome : N) (prompt : str) (imgs : list (N * N)) (after : list str) : bool :=
+  if (Nat.leb 1 k) && (Nat.leb k (tokenize_calls (render_style st) (tok_count tok) mllama projcount numctx msgs))
+  then outcome =? 3
+  else chk_chat st tok mllama projcount numctx msgs outcome prompt imgs after.
+
 (** the candidate prompts (real Template.Execute, one per suffix start) and their token counts (harness tokenizer) *)
 Definition chk_cand (st : style) (tok : N) (msgs : list msg) (prompts : list str) (counts : list N) : bool :=
   eqb_strs (map (fun k => render_style st (candidate msgs k)) (seq 0 (length msgs))) prompts
